@@ -918,6 +918,13 @@ def x_reduce(c):
     """reduce(f, <literal display>, init): unfolded left to right"""
     from .terms import is_lit as _is_lit
 
+    seq = c.args[1] if len(c.args) == 3 else None
+    if seq is not None and is_const(seq) and isinstance(seq[2], tuple):
+        seq = ("lit", "tuple", tuple(C(x) for x in seq[2]), None)
+    if seq is not None and seq[0] == "global" and seq[1].startswith("const:"):
+        seq = c.w.eng.const_literal(seq[1][6:]) or seq
+    if seq is not None:
+        c.args = (c.args[0], seq, c.args[2])
     if len(c.args) == 3 and _is_lit(c.args[1]) and c.args[1][1] in ("tuple", "list") and len(c.args[1][2]) <= 8:
         from .calls import call_value
 
